@@ -2084,6 +2084,12 @@ class PseudoNetCDFFile(PseudoNetCDFSelfReg, object):
                         varo[sliceoi], axis=concatax))
                 newvals = np.ma.concatenate(point_arrays, axis=concatax)
             else:
+                # integers are applied as length-1 slices so that numpy does
+                # not move axes when an integer and an index list select
+                # non-adjacent axes
+                sliceo = tuple(
+                    slice(si, (si + 1) or None) if np.isscalar(si) else si
+                    for si in sliceo)
                 newvals = varo[sliceo]
             try:
                 newvaro[...] = newvals
